@@ -204,6 +204,16 @@ def main(tier: str) -> int:
             recs["trials"].append((ind.copy(), mut.copy(), t.copy()))
             return t
         mod.binomial = wbin
+        # the vector handed to the strategy as "the best" is the best individual found so far (also with elitism off)
+        if cls is not SHADE and getattr(o, "_specified_mutation", None) in getattr(o, "_mutation_pool", {}):
+            _sm = o._mutation_pool[o._specified_mutation]
+
+            def wsm(cur, best, popg, F_, _sm=_sm):
+                if not np.array_equal(np.asarray(best), np.asarray(o._thefittest._genotype)) and not any(v[0] == "best" for v in viol):
+                    viol.append(("best", {"handed_as_best": np.asarray(best).tolist(), "best_so_far": np.asarray(o._thefittest._genotype).tolist()}))
+                return _sm(cur, best, popg, F_)
+            o._mutation_pool = dict(o._mutation_pool)
+            o._mutation_pool[o._specified_mutation] = wsm
         try:
             o.fit()
         finally:
@@ -233,6 +243,11 @@ def main(tier: str) -> int:
                         d = {"optimizer": cls.__name__, "left": np.asarray(box[0]).tolist(), "right": np.asarray(box[1]).tolist(), "num_variables": box[2],
                              "objective": oname, "F": F, "CR": CR, "strategy": strategy, "seed": chk.seed * 1000 + run_id}
                         chk.case(("run", cls.__name__, bi, oname, strategy, F, CR), sample=d if len(chk.samples) < 5 else None)
+                        if any(v[0] == "best" for v in viol):
+                            vb = next(v for v in viol if v[0] == "best")
+                            chk.fail("the vector handed to the donor strategy as 'the best' is not the best individual found so far",
+                                     {**d, "elitism": bool(run_id % 2 == 0), **vb[1]}, {"fn": "donor", "clause": "best", "optimizer": cls.__name__})
+                            viol = [v for v in viol if v[0] != "best"]
                         if viol:
                             chk.fail("a candidate handed to the fitness function (or a population member) lies outside the box",
                                      {**d, "first": str(viol[0])[:200], "count": len(viol)}, {"fn": "box", "optimizer": cls.__name__})
